@@ -173,7 +173,11 @@ def directed_cases(ctx, n):
                     v = G.S(rng.choice(['017', '0o17', '0x1F', '1_000', '1:30', '-012', '0755', '15', '+17', '0b101']))
                 if k[1] == 'part' and rng.random() < 0.5:
                     v = rng.choice([('m', [], None), ('m', [(G.S('size'), G.S('2'))], None),
-                                    ('m', [(G.S('other'), G.S('x'))], None)])
+                                    ('m', [(G.S('other'), G.S('x'))], None),
+                                    # a key that is not a scalar, the required key missing
+                                    ('m', [(('q', [G.S('a'), G.S('b')], None), G.S('1'))], None),
+                                    ('m', [(('m', [(G.S('a'), G.S('b'))], None), G.S('1')), (G.S('size'), G.S('2'))], None),
+                                    ('m', [(G.S('{odd}'), G.S('1')), (G.S('%s'), G.S('2'))], None)])
                 pairs.append((k, v))
             doc = ('m', pairs, doc[2])
             if rng.random() < 0.3:
